@@ -1,10 +1,10 @@
 package main
 
 import (
-	"math"
 	"encoding/hex"
 	"encoding/json"
 	"fmt"
+	"math"
 	"math/rand"
 	"runtime"
 	"runtime/debug"
